@@ -21,13 +21,14 @@ def rows(pattern):
 
 
 r1, r2, ro = rows('/verif/seeded/C*/meta.json'), rows('/verif/seeded/r2_*/meta.json'), rows('/verif/seeded/own_*/meta.json')
+r3 = rows('/verif/seeded/r3_*/meta.json')
 readme = """# Seeded property-breaking changes
 
 Each directory holds one change to mariomulansky/PySpike: `patch.diff` (rebased on the /repo HEAD the checks were validated
 against; apply with `git -C /repo apply <file>`, undo with `git -C /repo checkout -- .`), `demo.py` (exits 0 on the clean tree,
 non-zero with the change, run as `PYTHONPATH=<tree> /venv/bin/python demo.py`), `notes.md` (the author's description) and
 `meta.json` (what it needs to manifest, what was run, which checks fired at the quick tier, seed 0).  All of them keep the
-repository's 49 baseline tests green.  `Cxx_k` = round 1, `r2_Cxx_k` = round 2 (both written by independent sub-agents that
+repository's 49 baseline tests green.  `Cxx_k` = round 1, `r2_Cxx_k` = round 2, `r3_Axx_j` = round 3 (all written by independent sub-agents that
 were given only the text of one property and a scratch worktree - nothing from /verif), `own_*` = exact reverses of the
 repository repairs of DESIGN.md section 8 (written by the framework author).
 
@@ -45,6 +46,12 @@ repository repairs b41ad30 / 96fd8b7 make every function object a float array; t
 | change | what it is | owning check | other checks that fired |
 |---|---|---|---|
 """ % len(r2) + "\n".join(r2) + """
+
+## Round 3 (%d changes; each agent got all 20 properties and one area of the code base - SpikeTrain, generic.py, isi_lengths, DiscreteFunc, spike_sync, spike_directionality, the .pyx files only, the function classes and psth, spikes.py, cross-module edits)
+
+| change | what it is | property it breaks most directly (bold = that check fired) | other checks that fired |
+|---|---|---|---|
+""" % len(r3) + "\n".join(r3) + """
 
 ## Reverse-repair changes (%d)
 
